@@ -25,5 +25,6 @@ Next ==
 Spec == Init /\ [][Next]_vars
 SumBoundInv == SumBound(m)
 FailedCallsChangeNothing == [][(hist' # hist /\ hist'[Len(hist')].a = "add_tuple" /\ hist'[Len(hist')].err # "") => m' = m]_vars
+SamplingPossible == \A k \in Kinds, g \in Gates : Allowed(m, k, g) # {}
 Dump == (Len(hist) = MaxLen) => PrintT(<<"HIST", ToJson([calls |-> hist])>>)
 =============================================================================
